@@ -1,6 +1,7 @@
 (* C06 - include-except removes exactly the excluded entries and rewrites only suffixes. Statements only. *)
 From Coq Require Import String Permutation.
 From Verif Require Import Base.Str Base.Lines Base.Outcome Regex.Re Regex.Equiv Model.Patterns Model.ParseLine Model.Passes Model.CmdLine Model.Parser Model.Assembler Model.Generate.
+From Verif Require Import Proofs.IncludeExceptProofs.
 From Verif Require Import Proofs.EquivSound Proofs.PassesProofs Proofs.CmdLineProofs Proofs.ParserProofs Proofs.AssemblerProofs.
 From Verif Require Tie.Pin_lits_regex_parser_include_except_builder_replaceSuffixes Tie.Pin_lits_regex_parser_include_except_builder_removeExclusions Tie.Pin_lits_regex_parser_include_except_builder_buildinclusionLineMap Tie.Pin_lits_regex_parser_include_except_builder_stringFromInclusionLines Tie.Pin_lits_regex_parser_include_except_builder_buildIncludeExceptString Tie.Pin_lits_regex_parser_include_except_builder_buildIncludeString Tie.Pin_lits_regex_parser_include_except_builder_inclusionLineSlice_Less Tie.Pin_lits_regex_parser_parser_buildPairMap Tie.Pin_lits_regex_parser_parser_splitArgs Tie.Pin_IncludeExceptRegex_src Tie.Pin_IncludeRegex_src.
 Open Scope N_scope.
@@ -49,3 +50,27 @@ Theorem C06_chained_pairs_refuted :
 Proof. exact apply_pairs_order_dependent. Qed.
 Print Assumptions C06_chained_pairs_refuted.
 
+
+(* the whole map / delete / sort pipeline of include-except is this list function, for EVERY
+   iteration order of the Go map: the entries of F, each once at the position of its last occurrence,
+   without those that occur in the exclude files *)
+Theorem C06_include_except_is_list_difference :
+  forall (ordi : list (str * nat) -> list (str * nat)) ls excl,
+  (forall m, Permutation m (ordi m)) ->
+  string_from_lines (ordi (fold_left imap_del excl (build_imap ls 0 []))) =
+  match filter (not_excluded excl) (keep_last ls) with
+  | [] => []
+  | r => unlines r
+  end.
+Proof. exact include_except_spec. Qed.
+Print Assumptions C06_include_except_is_list_difference.
+
+Theorem C06_nothing_excluded_survives :
+  forall excl ls l, In l (filter (not_excluded excl) (keep_last ls)) -> ~ In l excl.
+Proof. exact nothing_excluded_survives. Qed.
+Print Assumptions C06_nothing_excluded_survives.
+
+Theorem C06_nothing_else_dropped :
+  forall excl ls l, In l ls -> ~ In l excl -> In l (filter (not_excluded excl) (keep_last ls)).
+Proof. exact nothing_else_dropped. Qed.
+Print Assumptions C06_nothing_else_dropped.
